@@ -1,7 +1,7 @@
 (* C13 -- configuration mistakes are rejected up front and leave nothing patched. *)
 From Coq Require Import List ZArith Bool Arith Lia String.
-From Goom Require Import Model.Errors Model.Patch Proofs.PatchProofs Tie.OrderTie.
-From Goom Require Gen.Erro Gen.PatchOrder.
+From Goom Require Import Model.Errors Model.Patch Proofs.PatchProofs Tie.OrderTie Tie.SkeletonTie.
+From Goom Require Gen.Erro Gen.PatchOrder Gen.SigSkeleton Gen.ArgSkeleton.
 Import ListNotations.
 Open Scope Z_scope.
 
@@ -96,3 +96,9 @@ Theorem C13_cause_chain_reaches_typed_cause :
   gchain (Err "ArgsNotMatch" None) = ["ArgsNotMatch"].
 Proof. vm_compute. repeat split; tauto. Qed.
 Print Assumptions C13_cause_chain_reaches_typed_cause.
+
+(* the two decision procedures the rules above transcribe are the source's: control skeletons regenerated by go2v *)
+Theorem C13_signature_check_is_source :
+  List.length Gen.SigSkeleton.SignatureEquals_skeleton = 11%nat /\ List.length Gen.ArgSkeleton.I2V_skeleton = 20%nat.
+Proof. rewrite sig_skeleton_tie, i2v_skeleton_tie. split; reflexivity. Qed.
+Print Assumptions C13_signature_check_is_source.
